@@ -18,7 +18,8 @@
      C04_chain_framed says the same with the computed [footprint] for Join chains of field lenses of any depth.
      The outer optic must be positional for "the absolute range of the inner focus" to exist: when it converts its
      value (BiMap) the bytes of the inner focus have no position in the arena, and C04_join_frame_outer (any lawful
-     outer optic: nothing outside the OUTER focus changes) is what can be said.
+     outer optic: nothing outside the OUTER focus changes) is what can be said.  C04_join_frame_needs_positional is the
+     witness: with the outer field seen through a byte swap (lawful, framed) the statement at offset 0 is false.
    * shapeN: C04_puts_nfold, generic over a list of component lenses ([puts] = the fold of component puts, last component
      first): with pairwise disjoint component foci every component reads back its own argument and no byte outside the
      union of the foci changes; C04_shapeN_nfold (N = 2..9) instantiates it for the definitions regenerated from
@@ -602,6 +603,17 @@ Theorem C04_morphism_needs_disjoint_targets :
   exists w1 w2, morphism_forward w_seq w_start = Ok w1 /\ morphism_inverse w_seq w1 = Ok w2 /\ ms w2 <> ms w_start.
 Proof. exact morphism_needs_disjoint_targets. Qed.
 Print Assumptions C04_morphism_needs_disjoint_targets.
+
+(* join_frame_needs_positional (Optics/CombWitness.v): KO = struct { P struct { X, Y int8 } }; outer optic = the field P
+   through a conversion that swaps its two bytes (lawful, framed by the field), inner optic = the field X; a Put through
+   the Join changes byte 1 of the arena, outside the inner focus placed at the outer offset *)
+Theorem C04_join_frame_needs_positional : exists a b,
+  swap_join = Ok (Join (BiMap a (@rev byte) (@rev byte)) b) /\
+  lawful (BiMap a (@rev byte) (@rev byte)) 2 /\ framed (BiMap a (@rev byte) (@rev byte)) 2 [(0, 2)] /\
+  framed b 1 [(0, 1)] /\
+  ~ framed (Join (BiMap a (@rev byte) (@rev byte)) b) 1 (map (fun r => (0 + fst r, snd r)) [(0, 1)]).
+Proof. exact join_frame_needs_positional. Qed.
+Print Assumptions C04_join_frame_needs_positional.
 
 (* .. while that list satisfies the other hypothesis of C04_morphism_roundtrip, and fails this one *)
 Theorem C04_witness_entries_ok : forall i, In (Some i) w_seq ->
